@@ -104,6 +104,7 @@ type RPC struct {
 	StartStep int      `json:"start_step,omitempty"`
 	Expect       string `json:"expect,omitempty"`        // C12: own | none | either
 	KindMismatch bool   `json:"kind_mismatch,omitempty"` // C12: registered with the other call shape
+	Nested    bool     `json:"nested,omitempty"`     // C10: started from inside another handler, not by its own client actor
 	RawClient bool     `json:"raw_client,omitempty"` // the client is the raw HTTP peer
 	ReqSpec   *MsgSpec `json:"req_spec,omitempty"`   // message encoded in a raw request body
 }
